@@ -656,8 +656,8 @@ def consts_diff_class(t, back):
         # into_asn hands const(..) to an INTEGER below optional(..) only (Type::no_optional_mut): not below default(..)
         return "default_integer_constants_lost_on_reparse"
     if back == () and base[0] == "int" and t[0] == "option":
-        # an extension addition (to_rust wraps it in Option): into_asn restores the constants, but to_rust_keep_names reads
-        # them with to_rust_constants(Type::Optional(..)) = none.  NOT a listed finding yet: see GEN_EXT_ADDITION_NAMED
+        # an extension addition / OPTIONAL component (Option-wrapped): fixed in /repo e572296 -- an ordinary unlisted class, so a
+        # regression of Context::to_rust_constants is reported
         return "extension_addition_constants_lost_on_reparse"
     return "reparse_constants_differ"
 
@@ -782,11 +782,10 @@ def REF(n):
     return ["ref", n]
 
 
-# Named numbers on an INTEGER extension addition come back without constants (class
-# extension_addition_constants_lost_on_reparse, witness  S ::= SEQUENCE { a BOOLEAN, ..., b INTEGER { x(1) } (0..9) }).
-# Reported to the lead; until it is a `finding:` / `fixed:` line of KNOWN_FINDINGS.txt the generators of this check leave the
-# family out (set to True to generate it: template IntsNamedDefault.E and the random grammar).
-GEN_EXT_ADDITION_NAMED = False
+# Named numbers on an INTEGER extension addition / OPTIONAL component: lost before /repo e572296 (to_rust_constants did not
+# look through Type::Optional); generated since.  A regression shows up as the unlisted class
+# extension_addition_constants_lost_on_reparse (3401) / attr_item_reparse_differs (3413).
+GEN_EXT_ADDITION_NAMED = True
 
 
 def templates():
@@ -809,7 +808,10 @@ def templates():
                                                 C("fb", INT(-5, 5, named=[["low-value", -5]]), ["def", -5]), C("fc", BOOL)])),
                                     T("X", SET([C("fa", INT(0, 255, named=[["max-v", 255]]), ["def", 0]), C("fb", BOOL, "opt")])),
                                     T("E", SEQ([C("fa", BOOL), C("fb", INT(0, 9, named=[["x", 1]] if GEN_EXT_ADDITION_NAMED else None)),
-                                                            C("fc", INT(0, 9, named=[["y", 2]]), ["def", 2])], 1))]))
+                                                            C("fc", INT(0, 9, named=[["y", 2]]), ["def", 2])], 1)),
+                                    T("O", SEQ([C("fa", BOOL), C("g", INT(0, 9, named=[["c", 3]] if GEN_EXT_ADDITION_NAMED else None), "opt"),
+                                                C("h", INT(named=[["neg", -7], ["big-one", 70000]] if GEN_EXT_ADDITION_NAMED else None), "opt")])),
+                                    T("Y", SET([C("fa", INT(-5, 5, named=[["low", -5]] if GEN_EXT_ADDITION_NAMED else None), "opt"), C("fb", BOOL)], 1))]))
     # sizes
     sizes = [None, FIX(0), FIX(1), FIX(8), FIX(8, True), RNG(0, 10), RNG(1, 64), RNG(1, 64, True), RNG(0, 65535), RNG(0, 65536), RNG(4, 4), RNG(4, 4, True),
              RNG(2, "MAX"), RNG("MIN", 12), RNG("MIN", "MAX"), RNG(0, "MAX"), RNG(1, 9223372036854775806)]
@@ -980,9 +982,9 @@ class Gen:
             m = r.random()
             opt = None if m < 0.55 else "opt" if m < 0.8 else self.default_for(t)
             addition = ext is not None and i >= ext
-            if (t[0] == "int" and opt != "opt" and isinstance(t[1], int) and isinstance(t[2], int) and r.random() < 0.3
-                    and (opt is not None or not addition or GEN_EXT_ADDITION_NAMED)):
-                # named numbers (inside the constraint); below OPTIONAL to_rust drops them, so not there
+            if (t[0] == "int" and isinstance(t[1], int) and isinstance(t[2], int) and r.random() < 0.3
+                    and (isinstance(opt, list) or (opt is None and not addition) or GEN_EXT_ADDITION_NAMED)):
+                # named numbers (inside the constraint) on plain, OPTIONAL, DEFAULT components and extension additions
                 t = INT(t[1], t[2], t[3], [["first", t[1]], ["last-one", t[2]]][:r.randrange(1, 3)])
             comps.append(C("f%d" % i if r.random() < 0.7 else r.choice(["ab-cd", "xy-zw-uv", "long-name"]) + str(i), t, opt,
                            self.unique_tag(i) if tagged and r.random() < 0.8 else None))
@@ -1262,7 +1264,9 @@ class AttrItemGen:
             # named numbers / named bits: where to_rust puts constants (INTEGER, an extension addition made optional, BIT STRING)
             t = self.ag.integer()
             k = r.random()
-            if k < 0.25:
+            if k < 0.25 and ctx == 3:
+                pass        # a transparent definition is never optional(..): T ::= INTEGER {..} OPTIONAL is no ASN.1
+            elif k < 0.25:
                 t = [6] + t
             elif k < 0.4:
                 t = [5] + self.ag.size()
@@ -1299,11 +1303,14 @@ def attr_item_expected(a):
     if a[0] == 4:
         return [0] + a[1:]
     e = aty_end(a, 1)
+    # ... followed by the member's constants in to_rust_keep_names of the re-parsed definition: the same list (a CHOICE
+    # variant carries none)
     if a[0] == 1:
-        return [0] + a[1:]
+        p = e + (1 if a[e] == 0 else 3)
+        return [0] + a[1:] + a[p:]
     if a[0] == 2:
-        return [0] + a[1:] + [0]
-    return [0] + a[1:e] + [0] + a[e:]
+        return [0] + a[1:] + [0, 0]
+    return [0] + a[1:e] + [0] + a[e:] + a[e:]
 
 
 def attr_item_deviation_classes(a):
@@ -1400,7 +1407,7 @@ class C08(Spec):
     theorems = ["C08_reparse_type_partial", "C08_reparse_type_in_context", "C08_refuted_half_open_range",
                 "C08_refuted_octet_default", "C08_refuted_untagged_complex",
                 "C08_reparse_attribute", "C08_reparse_attribute_wf", "C08_header_kind", "C08_ext_index_struct", "C08_ext_index_enum",
-                "C08_refuted_ext_escaped", "C08_into_asn_keeps", "C08_refuted_consts_dropped",
+                "C08_refuted_ext_escaped", "C08_into_asn_keeps", "C08_optional_constants_kept", "C08_refuted_consts_dropped",
                 "C08_consts", "C08_std_optional_fields", "C08_set_sort_keeps_root", "C08_consts_integer", "C08_consts_bounds"]
     builds = [("default", "dev")]
     level_text = ("PARTIAL. Proved in Coq (Front/Attr.v, Front/AttrItem.v, Front/Descr.v, Props/C08.v): (1) the whole attribute -- "
